@@ -266,7 +266,9 @@ class Snapper:
         for key in self.table:
             if key != "File:" and key not in self.primary:
                 self.problems.append({"kind": "reachable_only_through_link", "entity": key, "path": self.visited_via.get(key)})
-        return Snap(self.table, self.problems, self.counts)
+        snap = Snap(self.table, self.problems, self.counts)
+        snap.paths = dict(self.visited_via)
+        return snap
 
 
 class Snap:
